@@ -208,7 +208,13 @@ static const char* reader_name(struct channel* c, struct channel_reader* r, int 
     return "?";
 }
 /* what each reader currently has mapped, as frame sizes (to turn consumed bytes into frames) */
-static struct { struct channel_reader* r; int n; size_t total; size_t sz[4096]; } g_rm[8];
+static struct { struct channel_reader* r; int n; size_t total; size_t sz[4096]; const unsigned char* beg; uint32_t hash; } g_rm[8];
+static uint32_t region_hash(const unsigned char* p, size_t n)
+{
+    uint32_t h = 2166136261u;
+    for (size_t j = 0; j < n; ++j) { h ^= p[j]; h *= 16777619u; }
+    return h;
+}
 static int rm_slot(struct channel_reader* r)
 {
     for (int i = 0; i < 8; ++i) if (g_rm[i].r == r) return i;
@@ -226,6 +232,8 @@ struct slice __wrap_channel_read_map(struct channel* self, struct channel_reader
     int k = rm_slot(reader);
     g_rm[k].n = 0;
     g_rm[k].total = nbytes;
+    g_rm[k].beg = sl.beg;
+    g_rm[k].hash = nbytes ? region_hash(sl.beg, nbytes) : 0;     /* a mapped region must not change until it is unmapped (C02) */
     printf("R s%d %s %s rmap nbytes=%zu align=%d status=%d :", s, nm, rn, nbytes, (int)((uintptr_t)sl.beg & 7), (int)reader->status);
     const unsigned char* p = sl.beg;
     const unsigned char* e = sl.end;
@@ -253,6 +261,8 @@ void __wrap_channel_read_unmap(struct channel* self, struct channel_reader* read
     const char* rn = reader_name(self, reader, s);
     int k = rm_slot(reader);
     int was_mapped = reader->state == ChannelState_Mapped;
+    if (was_mapped && g_rm[k].total && g_rm[k].beg && region_hash(g_rm[k].beg, g_rm[k].total) != g_rm[k].hash)
+        printf("V s%d %s region-changed-while-mapped reader=%s nbytes=%zu\n", s, nm, rn, g_rm[k].total);
     size_t c = consumed < g_rm[k].total ? consumed : g_rm[k].total, tot = 0;
     int frames = 0, exact = 1;
     for (int i = 0; i < g_rm[k].n && tot < c; ++i) {
